@@ -348,7 +348,10 @@ def protoStep (st : St) (ts : List String) : State × String :=
   let bad : State × String := (some st, "bad-op")
   match ts with
   | ["conn", p] => match peer? p with
-    | some p => protoOp st (.conn p) "-"
+    | some p => protoOp st (.conn p true) "-"
+    | none => bad
+  | ["conn", p, "dead"] => match peer? p with
+    | some p => protoOp st (.conn p false) "-"
     | none => bad
   | ["disc", p] => match peer? p with
     | some p => protoOp st (.disc p) "-"
